@@ -227,7 +227,12 @@ func genC14(t *rapid.T) *Case {
 				if prop != "" {
 					p = ` itemprop="` + prop + `"`
 				}
-				s := `<div` + p + ` itemscope itemtype="http://schema.org/ImageObject">`
+				ioType := "ImageObject"
+				if prop != "" && g.intn(0, 11, "iotype") == 0 {
+					// the property holds an item of another supported type (it is no image)
+					ioType = g.pick("iotypev", "Person", "Organization", "Article")
+				}
+				s := `<div` + p + ` itemscope itemtype="http://schema.org/` + ioType + `">`
 				if g.chance(70, "iocontent") {
 					s += `<meta itemprop="contentUrl" content="http://example.com/sc/` + g.tokp("scc") + `.png">`
 				} else {
